@@ -221,3 +221,44 @@ func H_C15_DescendantsMonotone() {
 	deeper := a.NodeDescendants(start, d+1)
 	rt.Assert(rt.StrSubset(ids(res), ids(deeper)), "C15.descendants.monotone")
 }
+
+// H_C15_Interleaved: a node whose outgoing edge records are not adjacent in the stored list (one of another node sits
+// between them; different edge types): three stored edges, which the general quick bound (two) cannot have.
+func H_C15_Interleaved() {
+	a := &sbom.NodeList{}
+	for i := 0; i < 3; i++ {
+		a.Nodes = append(a.Nodes, &sbom.Node{Id: rt.NondetString("gid")})
+	}
+	is := ids(a)
+	rt.Assume(rt.StrsDistinct(is))
+	for _, id := range is {
+		rt.Assume(id != "")
+	}
+	mid := is[1+rt.NondetChoice("mid", 2)]
+	a.Edges = []*sbom.Edge{
+		{From: is[0], Type: sbom.Edge_contains, To: []string{rt.NondetString("gto")}},
+		{From: mid, Type: edgeType(rt.NondetChoice("gty", 2)), To: []string{rt.NondetString("gto")}},
+		{From: is[0], Type: sbom.Edge_dependsOn, To: []string{rt.NondetString("gto")}},
+	}
+	orig := cloneList(a)
+	start := is[0]
+	switch rt.NondetChoice("fn", 3) {
+	case 0:
+		res := a.NodeSiblings(start)
+		if res == nil || len(res.Nodes) == 0 {
+			rt.Assert(false, "C15.siblings.found")
+			return
+		}
+		c15check(res, orig, is, start, reach(orig, is, start, 2), reach(orig, is, start, 1), "C15.siblings")
+	case 1:
+		res := a.NodeGraph(start)
+		if res == nil {
+			rt.Assert(false, "C15.graph.found")
+			return
+		}
+		want := reach(orig, is, start, len(is)+1)
+		c15check(res, orig, is, start, want, traversable(orig, is, start, want), "C15.graph")
+	case 2:
+		c15descendantsRef(a, orig, is, start)
+	}
+}
